@@ -289,6 +289,7 @@ type chainBlock struct {
 	number uint
 	slot   uint64
 	epoch  uint64
+	side   bool // on the side branch that announces other data for the last epoch
 }
 
 // stubRuntime stands in for the Wasm runtime: it only receives equivocation
